@@ -419,3 +419,149 @@ Definition check_tar_pre (c : list string * links * list member * bool) : bool :
    directory); that link is the component's working directory from then on. *)
 Definition migrate_entry (work : list string) (src : string) : option (list string) :=
   stage_entry (removelast work) src.
+
+(* ---------------------------------------------------------------- the CONTENT of copied source folders *)
+(* What a :copy entry brings into the instance depends on what the source folder holds — in particular on the
+   symbolic links inside it.  A source folder is given as the list of its entries in walk order (parents before
+   children), each with its path relative to the folder.  A link carries the text os.readlink returns and what it
+   leads to (Some true: a directory, Some false: a file, None: nothing — dangling); what lies below a link to a
+   directory is listed too, as seen through the link. *)
+Inductive skind := SFile | SDir | SLnk (text : string) (sees : option bool).
+Definition stree := list (list string * skind).
+(* the source folders, keyed by the text before the method in the manifest value; None: not a directory *)
+Definition sources := list (string * option stree).
+
+(* what exists in (or is reached from) the instance: physical path, kind *)
+Inductive ekind := EDir | EFile | ELink (target : list string).
+Definition fsent := (list string * ekind)%type.
+
+Definition is_slnk (k : skind) : bool := match k with SLnk _ _ => true | _ => false end.
+Definition is_edir (k : ekind) : bool := match k with EDir => true | _ => false end.
+Definition is_efile (k : ekind) : bool := match k with EFile => true | _ => false end.
+
+(* rel lies strictly below an entry of the tree that is a link *)
+Definition below_slnk (t : stree) (rel : list string) : bool :=
+  existsb (fun x => is_slnk (snd x) && lprefixb (fst x) rel && negb (list_eqb (fst x) rel)) t.
+
+(* shutil.copytree(source, at, symlinks=preserve).  symlinks=False (THE CODE): a link is followed, what it leads
+   to is copied as a real directory / file, a dangling link is skipped and reported when the copy is over.
+   symlinks=True: a link is re-created with the same text (so a relative text is read from the new place) and
+   nothing below it is visited. *)
+Definition copy_entries (preserve : bool) (at_ : list string) (t : stree) : list fsent :=
+  flat_map (fun x =>
+    let p := (at_ ++ fst x)%list in
+    if preserve && below_slnk t (fst x) then [] else
+    match snd x with
+    | SFile => [(p, EFile)]
+    | SDir => [(p, EDir)]
+    | SLnk text sees =>
+        if preserve then [(p, ELink (snd (join_norm (removelast p) text)))]
+        else match sees with Some true => [(p, EDir)] | Some false => [(p, EFile)] | None => [] end
+    end) t.
+Definition copy_fails (preserve : bool) (t : stree) : bool :=
+  negb preserve && existsb (fun x => match snd x with SLnk _ None => true | _ => false end) t.
+
+Definition links_of (st : list fsent) : links :=
+  flat_map (fun x => match snd x with ELink t => [(fst x, t)] | _ => [] end) st.
+
+(* the instance directory itself and what the deployment created so far (of the world outside the instance the
+   model knows nothing: a path there is taken not to exist, its parent to exist — the worst case) *)
+Definition known (tgt : list string) (st : list fsent) (p : list string) : bool :=
+  list_eqb p tgt || existsb (fun x => list_eqb (fst x) p) st.
+Definition parent_ok (tgt : list string) (st : list fsent) (p : list string) : bool :=
+  let par := removelast p in
+  negb (lprefixb tgt par) || list_eqb par tgt || existsb (fun x => list_eqb (fst x) par && is_edir (snd x)) st.
+(* a directory on the way to p is a file *)
+Definition blocked (st : list fsent) (p : list string) : bool :=
+  existsb (fun x => is_efile (snd x) && lprefixb (fst x) p && negb (list_eqb (fst x) p)) st.
+
+(* os.makedirs(p): the missing directories from the instance directory down to p, p included *)
+Definition mkdirs (tgt : list string) (st : list fsent) (p : list string) : list fsent :=
+  match lstrip tgt p with
+  | Some rest => map (fun q => ((tgt ++ q)%list, EDir))
+                     (filter (fun q => negb (known tgt st (tgt ++ q)%list)) (prefixes_from [] rest))
+  | None => [(p, EDir)]
+  end.
+
+Definition lookup_src (srcs : sources) (s : string) : option stree :=
+  match List.find (fun x => String.eqb (fst x) s) srcs with Some (_, Some t) => Some t | _ => None end.
+
+(* how a lexical path is turned into the physical one: [res strict links p] *)
+Definition resolver := bool -> links -> list string -> list string.
+Definition res_fs : resolver := fun strict lk p => resolve strict lk link_fuel p.    (* the file system *)
+Definition res_lex : resolver := fun _ _ p => p.                                    (* no link is followed *)
+
+(* one manifest entry (in the order of the manifest); false: OSError, the deployment stops
+   (PackageCreateError) and leaves what it made.
+     link: os.symlink(source, <instance>/key) — the last component is not followed; fails when the name exists or
+           its directory does not, and for a key written with a trailing "/" or "/." (ENOENT / EEXIST);
+     copy: shutil.copytree(source, <instance>/key) — the source is listed first (fails when it is not a
+           directory), os.makedirs(<instance>/key) fails when it exists. *)
+Definition step (res : resolver) (preserve : bool) (srcs : sources) (tgt : list string) (st : list fsent) (e : entry)
+  : list fsent * bool :=
+  let p := kpath tgt (fst e) in
+  if is_link e then
+    let rp := res true (links_of st) p in
+    if known tgt st rp || negb (parent_ok tgt st rp) || skipseg (basename (fst e)) then (st, false)
+    else ((st ++ [(rp, ELink (norm_onto [] (segs (source_of (snd e)))))])%list, true)
+  else
+    match lookup_src srcs (source_of (snd e)) with
+    | None => (st, false)
+    | Some t =>
+        let rp := res false (links_of st) p in
+        if known tgt st rp || blocked st rp then (st, false)
+        else ((st ++ mkdirs tgt st rp ++ copy_entries preserve rp t)%list, negb (copy_fails preserve t))
+    end.
+
+Fixpoint run_entries (res : resolver) (preserve : bool) (srcs : sources) (tgt : list string) (st : list fsent)
+  (man : list entry) : list fsent * bool :=
+  match man with
+  | [] => (st, true)
+  | e :: r => let '(st', ok) := step res preserve srcs tgt st e in
+              if ok then run_entries res preserve srcs tgt st' r else (st', false)
+  end.
+
+(* after the manifest: os.makedirs(<instance>/conf) unless "conf" is a key, then
+   shutil.copyfile(package file, <instance>/conf/<conf_file>) (a write: follows links, replaces a file) *)
+Definition self_step (res : resolver) (dsl : bool) (tgt : list string) (man : list entry) (st : list fsent)
+  : list fsent * bool :=
+  let cd := res false (links_of st) (tgt ++ ["conf"])%list in
+  if negb (has_conf_key man) && known tgt st cd then (st, false) else
+  let st1 := if has_conf_key man then st else (st ++ [(cd, EDir)])%list in
+  let pf := res false (links_of st1) (tgt ++ ["conf"; conf_file dsl])%list in
+  if existsb (fun x => list_eqb (fst x) pf && is_edir (snd x)) st1 then (st1, false)
+  else ((st1 ++ [(pf, EFile)])%list, true).
+
+(* the whole deployment of a package file + manifest: everything it creates or writes, and whether it completed *)
+Definition deploy_fs (res : resolver) (preserve : bool) (dsl : bool) (srcs : sources) (tgt : list string)
+  (man : list entry) : list fsent * bool :=
+  if deploy_ok dsl man then
+    let '(st, ok) := run_entries res preserve srcs tgt [] man in
+    if ok then self_step res dsl tgt man st else (st, false)
+  else ([], false).
+
+(* the manifest is a Python dict: no key twice *)
+Fixpoint nodup_keys (man : list entry) : bool :=
+  match man with
+  | [] => true
+  | e :: r => negb (existsb (fun x => String.eqb (fst x) (fst e)) r) && nodup_keys r
+  end.
+
+(* case = (source folders, manifest, DSL, accepted by Manifest.validate, accepted by the deployment's checks,
+   deployment completed, what is in the instance directory afterwards: relative path + kind 0 dir 1 file 2 link) *)
+Definition kind_code (k : ekind) : nat := match k with EDir => 0 | EFile => 1 | ELink _ => 2 end.
+Definition ent_eqb (a b : list string * nat) : bool := list_eqb (fst a) (fst b) && Nat.eqb (snd a) (snd b).
+Definition ents_sub (a b : list (list string * nat)) : bool := forallb (fun x => existsb (ent_eqb x) b) a.
+Definition inst_view (tgt : list string) (st : list fsent) : list (list string * nat) :=
+  flat_map (fun x => match lstrip tgt (fst x) with
+                     | Some [] => []
+                     | Some r => [(r, kind_code (snd x))]
+                     | None => [([".."], kind_code (snd x))]      (* outside the instance: never in a listing of it *)
+                     end) st.
+Definition model_tgt : list string := ["loc"; "x.instance"].
+Definition check_man3 (c : sources * list entry * bool * bool * bool * bool * list (list string * nat)) : bool :=
+  let '(srcs, man, dsl, v, dpl, completed, lst) := c in
+  Bool.eqb (validate man) v && Bool.eqb (deploy_ok dsl man) dpl &&
+  (let '(st, ok) := deploy_fs res_fs false dsl srcs model_tgt man in
+   let view := inst_view model_tgt st in
+   Bool.eqb ok completed && ents_sub view lst && ents_sub lst view).
